@@ -98,6 +98,27 @@ where
         }
     }
 
+    fn visit_mut_loop_body(&mut self, body: &mut Box<Stmt>) {
+        if body.is_block() {
+            body.visit_mut_with(self);
+            return;
+        }
+        let mut stmts = vec![mem::replace(
+            &mut **body,
+            Stmt::Empty(EmptyStmt { span: DUMMY_SP }),
+        )];
+        self.visit_mut_stmts(&mut stmts);
+        **body = if stmts.len() == 1 {
+            stmts.pop().unwrap()
+        } else {
+            Stmt::Block(BlockStmt {
+                span: DUMMY_SP,
+                stmts,
+                ..Default::default()
+            })
+        };
+    }
+
     fn import_from_vue(&mut self, item: &'static str) -> Ident {
         #[cfg(feature = "verif-trace")]
         if !self.vue_imports.contains_key(item) {
@@ -1448,6 +1469,44 @@ where
         self.injecting_consts = outer_consts;
         self.injecting_vars = outer_vars;
         self.slot_counter = outer_slot_counter;
+    }
+
+    fn visit_mut_stmt(&mut self, stmt: &mut Stmt) {
+        // a loop body that is a single statement runs once per iteration: what it needs declared
+        // is declared per iteration, as if the body were a block
+        match stmt {
+            Stmt::For(ForStmt {
+                init,
+                test,
+                update,
+                body,
+                ..
+            }) => {
+                init.visit_mut_with(self);
+                test.visit_mut_with(self);
+                update.visit_mut_with(self);
+                self.visit_mut_loop_body(body);
+            }
+            Stmt::ForIn(ForInStmt {
+                left, right, body, ..
+            })
+            | Stmt::ForOf(ForOfStmt {
+                left, right, body, ..
+            }) => {
+                left.visit_mut_with(self);
+                right.visit_mut_with(self);
+                self.visit_mut_loop_body(body);
+            }
+            Stmt::While(WhileStmt { test, body, .. }) => {
+                test.visit_mut_with(self);
+                self.visit_mut_loop_body(body);
+            }
+            Stmt::DoWhile(DoWhileStmt { test, body, .. }) => {
+                self.visit_mut_loop_body(body);
+                test.visit_mut_with(self);
+            }
+            _ => stmt.visit_mut_children_with(self),
+        }
     }
 
     fn visit_mut_arrow_expr(&mut self, arrow_expr: &mut ArrowExpr) {
